@@ -15,8 +15,13 @@ RULE = (
 ASSUMPTIONS = base.ASSUMPTIONS
 
 plan = base.plan
-replay = base.replay
+
+
+def replay(case):
+    base.STRICT_SCOPE = True
+    return base.replay(case)
 
 
 def run_shard(sh):
+    base.STRICT_SCOPE = True
     base.run_shard(sh, scoped_bias=0.8, kw={"max_lets": 3})
